@@ -59,7 +59,8 @@ package fox
 //@   loop 2: invariant @C16,C01 pool-balance: poolOut[&tree.ctx] == old(poolOut[&tree.ctx])
 //@   loop 3: invariant @C16,C01 pool-balance: poolOut[&tree.ctx] == old(poolOut[&tree.ctx]) + 1
 //@   loop 4: invariant @C16,C01 pool-balance: poolOut[&tree.ctx] == old(poolOut[&tree.ctx])
-//@   loop 1: invariant current != nil && 0 <= charsMatched && charsMatched <= len(path) && (charsMatched < len(path) ==> paramKeyCnt == 0) && paramCnt <= len(*c.params)
+//@   loop 1: invariant current != nil && 0 <= charsMatched && charsMatched <= len(path) && (charsMatched < len(path) ==> paramKeyCnt == 0)
+//@   loop 1: invariant @C01,C11,C12 count-le: paramCnt <= len(*c.params)
 //@   loop 1: invariant at-end: charsMatched == len(path) ==> 0 <= charsMatchedInNodeFound && charsMatchedInNodeFound <= len(current.key)
 //@   loop 1: invariant @C01,C11,C12 stack: stackOK(c, path) && stackMono(c) && stackTop(c, paramCnt)
 //@   loop 1: invariant tsr-n: (tsr ==> n != nil) && (n != nil ==> n.route != nil)
@@ -67,7 +68,8 @@ package fox
 //@   loop 1: invariant live: !released[box(c)]
 //@   loop 1: invariant @C01,C11,C12 lazy-len: lazy ==> len(*c.params) <= old(len(*c.params))
 //@   loop 1: invariant @C01,C11,C12 params-count: !lazy ==> len(*c.params) == paramCnt
-//@   loop 2: invariant current != nil && 0 <= charsMatched && charsMatched <= len(path) && 0 <= i && i == charsMatchedInNodeFound && i <= len(current.key) && paramCnt <= len(*c.params)
+//@   loop 2: invariant current != nil && 0 <= charsMatched && charsMatched <= len(path) && 0 <= i && i == charsMatchedInNodeFound && i <= len(current.key)
+//@   loop 2: invariant @C01,C11,C12 count-le: paramCnt <= len(*c.params)
 //@   loop 2: invariant pkc: paramKeyCnt == cnt(current.key, charsMatchedInNodeFound) && paramKeyCnt <= len(current.params)
 //@   loop 2: invariant @C01,C11,C12 stack: stackOK(c, path) && stackMono(c) && stackTop(c, paramCnt)
 //@   loop 2: invariant tsr-n: (tsr ==> n != nil) && (n != nil ==> n.route != nil)
@@ -75,7 +77,8 @@ package fox
 //@   loop 2: invariant live: !released[box(c)]
 //@   loop 2: invariant @C01,C11,C12 lazy-len: lazy ==> len(*c.params) <= old(len(*c.params))
 //@   loop 2: invariant @C01,C11,C12 params-count: !lazy ==> len(*c.params) == paramCnt
-//@   loop 3: invariant current != nil && 0 <= startPath && startPath <= charsMatched && charsMatched <= len(path) && inode != nil && subCtx != nil && subCtx != c && subCtx.params != nil && subCtx.tsrParams != nil && subCtx.skipNds != nil && paramCnt <= len(*c.params)
+//@   loop 3: invariant current != nil && 0 <= startPath && startPath <= charsMatched && charsMatched <= len(path) && inode != nil && subCtx != nil && subCtx != c && subCtx.params != nil && subCtx.tsrParams != nil && subCtx.skipNds != nil
+//@   loop 3: invariant @C01,C11,C12 count-le: paramCnt <= len(*c.params)
 //@   loop 3: invariant pkc: paramKeyCnt < len(current.params) && 0 <= charsMatchedInNodeFound && charsMatchedInNodeFound <= len(current.key)
 //@   loop 3: invariant live-sub: !released[box(subCtx)]
 //@   loop 3: invariant @C01,C11,C12 stack: stackOK(c, path) && stackMono(c) && stackTop(c, paramCnt)
@@ -83,7 +86,8 @@ package fox
 //@   loop 3: invariant no-wrap: paramCnt <= charsMatched
 //@   loop 3: invariant live: !released[box(c)]
 //@   loop 3: invariant @C01,C11,C12 lazy-len: lazy ==> len(*c.params) <= old(len(*c.params))
-//@   loop 4: invariant current != nil && 0 <= charsMatched && charsMatched < len(path) && 0 <= i#2 && i#2 <= len(current.childKeys) && idx#5 == -1 && paramCnt <= len(*c.params) && 0 <= charsMatchedInNodeFound && charsMatchedInNodeFound <= len(current.key)
+//@   loop 4: invariant current != nil && 0 <= charsMatched && charsMatched < len(path) && 0 <= i#2 && i#2 <= len(current.childKeys) && idx#5 == -1 && 0 <= charsMatchedInNodeFound && charsMatchedInNodeFound <= len(current.key)
+//@   loop 4: invariant @C01,C11,C12 count-le: paramCnt <= len(*c.params)
 //@   loop 4: invariant @C01,C11,C12 stack: stackOK(c, path) && stackMono(c) && stackTop(c, paramCnt)
 //@   loop 4: invariant tsr-n: (tsr ==> n != nil) && (n != nil ==> n.route != nil)
 //@   loop 4: invariant no-wrap: paramCnt <= charsMatched
@@ -124,7 +128,8 @@ package fox
 //@   loop 1: invariant live: !released[box(c)]
 //@   loop 1: invariant @C01,C09,C11,C12 lazy-len: lazy ==> len(*c.params) <= old(len(*c.params))
 //@   loop 1: invariant 0 <= i && i <= len(target.childKeys) && idx == -1 && len(*c.skipNds) == 0 && charsMatched == 0 && paramCnt == 0 && paramKeyCnt == 0 && !tsr && n == nil
-//@   loop 2: invariant current != nil && 0 <= charsMatched && charsMatched <= len(host) && (charsMatched < len(host) ==> paramKeyCnt == 0) && paramCnt <= len(*c.params) && subCtxOK(subCtx, c)
+//@   loop 2: invariant current != nil && 0 <= charsMatched && charsMatched <= len(host) && (charsMatched < len(host) ==> paramKeyCnt == 0) && subCtxOK(subCtx, c)
+//@   loop 2: invariant @C01,C09,C11,C12 count-le: paramCnt <= len(*c.params)
 //@   loop 2: invariant at-end: charsMatched == len(host) ==> 0 <= charsMatchedInNodeFound && charsMatchedInNodeFound <= len(current.key)
 //@   loop 2: invariant @C01,C09,C11,C12 stack: stackOK(c, host) && stackMono(c) && stackTop(c, paramCnt)
 //@   loop 2: invariant tsr-n: (tsr ==> n != nil) && (n != nil ==> n.route != nil)
@@ -132,7 +137,8 @@ package fox
 //@   loop 2: invariant live: !released[box(c)]
 //@   loop 2: invariant @C01,C09,C11,C12 lazy-len: lazy ==> len(*c.params) <= old(len(*c.params))
 //@   loop 2: invariant @C01,C09,C11,C12 params-count: !lazy ==> len(*c.params) == paramCnt
-//@   loop 3: invariant current != nil && 0 <= charsMatched && charsMatched <= len(host) && 0 <= i#2 && i#2 == charsMatchedInNodeFound && i#2 <= len(current.key) && paramCnt <= len(*c.params) && subCtxOK(subCtx, c)
+//@   loop 3: invariant current != nil && 0 <= charsMatched && charsMatched <= len(host) && 0 <= i#2 && i#2 == charsMatchedInNodeFound && i#2 <= len(current.key) && subCtxOK(subCtx, c)
+//@   loop 3: invariant @C01,C09,C11,C12 count-le: paramCnt <= len(*c.params)
 //@   loop 3: invariant pkc: paramKeyCnt == cnt(current.key, charsMatchedInNodeFound) && paramKeyCnt <= len(current.params)
 //@   loop 3: invariant @C01,C09,C11,C12 stack: stackOK(c, host) && stackMono(c) && stackTop(c, paramCnt)
 //@   loop 3: invariant tsr-n: (tsr ==> n != nil) && (n != nil ==> n.route != nil)
@@ -140,7 +146,8 @@ package fox
 //@   loop 3: invariant live: !released[box(c)]
 //@   loop 3: invariant @C01,C09,C11,C12 lazy-len: lazy ==> len(*c.params) <= old(len(*c.params))
 //@   loop 3: invariant @C01,C09,C11,C12 params-count: !lazy ==> len(*c.params) == paramCnt
-//@   loop 4: invariant current != nil && 0 <= charsMatched && charsMatched < len(host) && 0 <= i#3 && i#3 <= len(current.childKeys) && idx == -1 && paramCnt <= len(*c.params) && 0 <= charsMatchedInNodeFound && charsMatchedInNodeFound <= len(current.key) && subCtxOK(subCtx, c)
+//@   loop 4: invariant current != nil && 0 <= charsMatched && charsMatched < len(host) && 0 <= i#3 && i#3 <= len(current.childKeys) && idx == -1 && 0 <= charsMatchedInNodeFound && charsMatchedInNodeFound <= len(current.key) && subCtxOK(subCtx, c)
+//@   loop 4: invariant @C01,C09,C11,C12 count-le: paramCnt <= len(*c.params)
 //@   loop 4: invariant @C01,C09,C11,C12 stack: stackOK(c, host) && stackMono(c) && stackTop(c, paramCnt)
 //@   loop 4: invariant tsr-n: (tsr ==> n != nil) && (n != nil ==> n.route != nil)
 //@   loop 4: invariant no-wrap: paramCnt <= charsMatched
